@@ -43,6 +43,31 @@ func (b *BinT) Unmarshal(x []byte) error {
 	return nil
 }
 
+// BothT offers two serialisations: Marshal/Unmarshal (what a binary-tagged column uses) and
+// encoding.BinaryMarshaler/Unmarshaler with another byte layout.
+type BothT struct{ V uint32 }
+
+func (b BothT) Marshal() ([]byte, error) {
+	return []byte{0x62, byte(b.V >> 24), byte(b.V >> 16), byte(b.V >> 8), byte(b.V)}, nil
+}
+func (b *BothT) Unmarshal(x []byte) error {
+	if len(x) != 5 || x[0] != 0x62 {
+		return fmt.Errorf("bad BothT %x", x)
+	}
+	b.V = uint32(x[1])<<24 | uint32(x[2])<<16 | uint32(x[3])<<8 | uint32(x[4])
+	return nil
+}
+func (b BothT) MarshalBinary() ([]byte, error) {
+	return []byte{0x6c, byte(b.V), byte(b.V >> 8), byte(b.V >> 16), byte(b.V >> 24)}, nil
+}
+func (b *BothT) UnmarshalBinary(x []byte) error {
+	if len(x) != 5 || x[0] != 0x6c {
+		return fmt.Errorf("bad BothT binary %x", x)
+	}
+	b.V = uint32(x[1]) | uint32(x[2])<<8 | uint32(x[3])<<16 | uint32(x[4])<<24
+	return nil
+}
+
 // RowA: plain scalar columns of every width. Auto-increment primary key.
 type RowA struct {
 	Id    int64 `sql:",primary"`
@@ -95,6 +120,8 @@ type RowC struct {
 	PTx   *TextT         `sql:",string"`
 	Bin   BinT           `sql:",binary"`
 	PBin  *BinT          `sql:",binary"`
+	Both  BothT          `sql:",binary"`
+	PBoth *BothT         `sql:",binary"`
 	Proto thunderpb.Field  `sql:",binary"`
 	PProto *thunderpb.Field `sql:",binary"`
 	INS   string `sql:",implicitnull"`
@@ -185,6 +212,9 @@ func genValue(t *rapid.T, typ reflect.Type, name string) reflect.Value {
 		return v
 	case reflect.TypeOf(BinT{}):
 		v.Set(reflect.ValueOf(BinT{V: []byte(rapid.SampledFrom(bytePool).Draw(t, "bin"))}))
+		return v
+	case reflect.TypeOf(BothT{}):
+		v.Set(reflect.ValueOf(BothT{V: rapid.SampledFrom([]uint32{0, 1, 0x01020304, 0xfffffffe}).Draw(t, "both")}))
 		return v
 	case reflect.TypeOf(thunderpb.Field{}):
 		f := thunderpb.Field{Kind: thunderpb.FieldKind_Int, Value: &thunderpb.Field_Int{Int: int64(rapid.IntRange(0, 3).Draw(t, "pint"))}}
